@@ -12,8 +12,8 @@ Arguments p_invoke : simpl never.
 Section SimE.
 Variable c : p_cfg.
 Variable d : nat.
-Hypothesis G1 : forall x a, In a (pc_rs (p_get c x) ++ pc_ws (p_get c x) ++ pc_cs (p_get c x)) -> p_act_target a = x.
-Hypothesis G2 : forall x, pc_doc (p_get c x) = false.
+Hypothesis G1 : forall x a, x <> d -> In a (pc_rs (p_get c x) ++ pc_ws (p_get c x) ++ pc_cs (p_get c x)) -> p_act_target a <> d.
+Hypothesis G2d : pc_doc (p_get c d) = false.
 Local Notation conn := (pc_conn (p_get c d)).
 Local Notation sock := (p_is_sock c d).
 
@@ -73,7 +73,7 @@ Proof.
       intros cut id0 X; exact X.
     + split; [destruct conn; exact W|]. split.
       * destruct conn eqn:CN; simpl; rewrite M; unfold p_ep_set_obj; simpl; rewrite p_upd_same; simpl;
-          simpl in T1, T2; repeat split; auto; try apply G2.
+          simpl in T1, T2; repeat split; auto; try apply G2d.
       * intros cut id0 X. unfold p_mid in *. destruct cut.
         -- destruct X as (X1 & X2). assert (id <> id0) by (eapply p_mapped_not_orph; eauto).
            destruct conn; simpl; rewrite p_upd_other; auto.
@@ -83,7 +83,7 @@ Proof.
     destruct (p_lookup_new _ _ _ _ _ W M L) as (O1 & O2 & O3 & O4 & O5 & W1).
     rewrite O3. simpl. split; [destruct conn; exact W1|]. split.
     + destruct conn eqn:CN; simpl; rewrite O4; unfold p_ep_set_obj; simpl; rewrite p_upd_same; simpl;
-        repeat split; auto; try apply G2.
+        repeat split; auto; try apply G2d.
     + intros cut id0 X. unfold p_mid in *. destruct cut; [|congruence].
       destruct X as (X1 & X2). assert (id0 <> idn) by (intro; subst; auto).
       destruct conn; simpl; rewrite O1, p_upd_other, O5; auto.
@@ -220,19 +220,6 @@ Qed.
 
 Definition p_rm (s : p_st) (a : p_a) (id0 : nat) : Prop := p_re s a /\ p_mid (st_ep s) (a_cut a) id0.
 
-Lemma p_rm_acts_self l : (forall x, In x l -> p_act_target x = d) ->
-  (forall x, In x l -> p_is_addw x = true -> sock = true) ->
-  forall s a id0, p_rm s a id0 -> p_rm (p_exec_acts c s l) (l_acts a l) id0.
-Proof.
-  unfold p_exec_acts, l_acts. induction l as [|y l IH]; simpl; intros N K s a id0 R; auto.
-  destruct R as [R M].
-  destruct (p_re_act_self s a y (N y (or_introl eq_refl)) (K y (or_introl eq_refl)) R) as [R' M'].
-  apply IH.
-  - intros x Hx. apply N. right; exact Hx.
-  - intros x Hx. apply K. right; exact Hx.
-  - split; auto.
-Qed.
-
 (* ---------- frames: actions aimed at another descriptor ---------- *)
 Lemma p_tab_frame e e' ar aw : ep_map e' d = ep_map e d ->
   (forall id, ep_map e d = Some id -> ep_obj e' id = ep_obj e id) -> p_tab e ar aw -> p_tab e' ar aw.
@@ -318,26 +305,94 @@ Proof.
   apply IH. intros; apply N; auto. apply p_re_exec_act_other; auto.
 Qed.
 
+(* the orphaned EPollData of d's event is not touched by actions aimed at other descriptors *)
+Lemma p_lookup_orph e t e1 id nw : p_ep_lookup e t = (e1, id, nw) -> ep_orph e1 = ep_orph e.
+Proof.
+  unfold p_ep_lookup. destruct (ep_map e t). intros E; inversion E; auto.
+  destruct (ep_free e); intros E; inversion E; reflexivity.
+Qed.
+Lemma p_mid_other_ep e e' cut id0 : p_mid e cut id0 ->
+  ep_map e' d = ep_map e d -> (In id0 (ep_orph e) -> In id0 (ep_orph e') /\ ep_obj e' id0 = ep_obj e id0) ->
+  p_mid e' cut id0.
+Proof.
+  unfold p_mid. intros M A B. destruct cut; [|congruence].
+  destruct M as (M1 & M2). destruct (B M1) as [B1 B2]. rewrite B2. auto.
+Qed.
+Lemma p_orph_add_r e t id0 : p_wf e -> In id0 (ep_orph e) ->
+  In id0 (ep_orph (fst (p_ep_add_r c e t))) /\ ep_obj (fst (p_ep_add_r c e t)) id0 = ep_obj e id0.
+Proof.
+  intros W H. unfold p_ep_add_r. destruct (p_ep_lookup e t) as [[e1 id] nw] eqn:L.
+  destruct (p_wf_lookup _ _ _ _ _ W L) as (W1 & M1 & _ & F2 & _). pose proof (p_lookup_orph _ _ _ _ _ L) as O.
+  assert (N : id0 <> id). { intro; subst. eapply (p_mapped_not_orph e1 t id id); eauto. rewrite O; auto. }
+  destruct (e_r (ep_obj e1 id)); [|destruct (pc_conn (p_get c t))]; simpl; rewrite ?O, ?p_upd_other, ?F2; auto.
+Qed.
+Lemma p_orph_add_w e t id0 : p_wf e -> In id0 (ep_orph e) ->
+  In id0 (ep_orph (fst (p_ep_add_w e t))) /\ ep_obj (fst (p_ep_add_w e t)) id0 = ep_obj e id0.
+Proof.
+  intros W H. unfold p_ep_add_w. destruct (p_ep_lookup e t) as [[e1 id] nw] eqn:L.
+  destruct (p_wf_lookup _ _ _ _ _ W L) as (W1 & M1 & _ & F2 & _). pose proof (p_lookup_orph _ _ _ _ _ L) as O.
+  assert (N : id0 <> id). { intro; subst. eapply (p_mapped_not_orph e1 t id id); eauto. rewrite O; auto. }
+  destruct (e_w (ep_obj e1 id)); simpl; rewrite ?O, ?p_upd_other, ?F2; auto.
+Qed.
+Lemma p_orph_remove e t wr id0 : p_wf e -> In id0 (ep_orph e) ->
+  In id0 (ep_orph (fst (p_ep_remove e t wr))) /\ ep_obj (fst (p_ep_remove e t wr)) id0 = ep_obj e id0.
+Proof.
+  intros W H. unfold p_ep_remove. destruct (ep_map e t) as [id|] eqn:M; auto.
+  assert (N : id0 <> id). { intro; subst. eapply (p_mapped_not_orph e t id id); eauto. }
+  match goal with |- context [if ?b then _ else _] => destruct b end; simpl; rewrite ?p_upd_other; auto.
+  split; auto. apply in_or_app; auto.
+Qed.
+Lemma p_mid_exec_act_other s x cut id0 : p_act_target x <> d -> st_be s = true -> p_wf (st_ep s) ->
+  p_mid (st_ep s) cut id0 -> p_mid (st_ep (p_exec_act c s x)) cut id0.
+Proof.
+  intros N B W M. unfold p_exec_act. destruct (st_del s (p_act_target x)); auto.
+  destruct x; simpl in N.
+  - unfold p_add_r. simpl. rewrite B. destruct (p_other_add_r (st_ep s) d0 W N) as [A _].
+    pose proof (p_orph_add_r (st_ep s) d0 id0 W) as O.
+    destruct (p_ep_add_r c (st_ep s) d0). simpl in *. eapply p_mid_other_ep; eauto.
+  - unfold p_add_w. simpl. rewrite B. destruct (p_other_add_w (st_ep s) d0 W N) as [A _].
+    pose proof (p_orph_add_w (st_ep s) d0 id0 W) as O.
+    destruct (p_ep_add_w (st_ep s) d0). simpl in *. eapply p_mid_other_ep; eauto.
+  - unfold p_rem_r. simpl. rewrite B. destruct (p_other_remove (st_ep s) d0 false W N) as [A _].
+    pose proof (p_orph_remove (st_ep s) d0 false id0 W) as O.
+    destruct (p_ep_remove (st_ep s) d0 false). simpl in *. eapply p_mid_other_ep; eauto.
+  - unfold p_rem_w. simpl. rewrite B. destruct (p_other_remove (st_ep s) d0 true W N) as [A _].
+    pose proof (p_orph_remove (st_ep s) d0 true id0 W) as O.
+    destruct (p_ep_remove (st_ep s) d0 true). simpl in *. eapply p_mid_other_ep; eauto.
+Qed.
+
 Hypothesis G3 : forall a, In a (pc_rs (p_get c d) ++ pc_ws (p_get c d) ++ pc_cs (p_get c d)) ->
-  p_is_addw a = true -> sock = true.
+  p_act_target a = d -> p_is_addw a = true -> sock = true.
+
+Lemma p_rm_acts_mixed l : (forall x, In x l -> p_act_target x = d -> p_is_addw x = true -> sock = true) ->
+  forall s a id0, p_rm s a id0 -> p_rm (p_exec_acts c s l) (l_acts a (l_own d l)) id0.
+Proof.
+  unfold p_exec_acts, l_acts, l_own. induction l as [|y l IH]; simpl; intros K s a id0 R; auto.
+  destruct R as [R M]. unfold p_act_self at 1. destruct (p_act_target y =? d) eqn:E.
+  - apply Nat.eqb_eq in E. simpl.
+    destruct (p_re_act_self s a y E (K y (or_introl eq_refl) E) R) as [R' M'].
+    apply IH. intros x Hx. apply K. right; exact Hx. split; auto.
+  - apply Nat.eqb_neq in E. apply IH. intros x Hx. apply K. right; exact Hx.
+    split. apply p_re_exec_act_other; auto.
+    apply p_mid_exec_act_other; auto. apply (re_be _ _ R). apply (re_wf _ _ R).
+Qed.
 
 Lemma p_rm_invoke_self s a k n id0 : st_opix s = n -> p_rm s a id0 ->
   p_rm (p_invoke c s d k) (l_invoke c d n a k) id0.
 Proof.
   intros O [R M]. unfold p_invoke. rewrite (re_del _ _ R).
-  destruct (p_scripts_self c G1 d) as (S1 & S2 & S3).
-  assert (K1 : forall x, In x (pc_rs (p_get c d)) -> p_is_addw x = true -> sock = true)
+  assert (K1 : forall x, In x (pc_rs (p_get c d)) -> p_act_target x = d -> p_is_addw x = true -> sock = true)
     by (intros; apply (G3 x); auto; apply in_or_app; auto).
-  assert (K2 : forall x, In x (pc_ws (p_get c d)) -> p_is_addw x = true -> sock = true)
+  assert (K2 : forall x, In x (pc_ws (p_get c d)) -> p_act_target x = d -> p_is_addw x = true -> sock = true)
     by (intros; apply (G3 x); auto; apply in_or_app; right; apply in_or_app; auto).
-  assert (K3 : forall x, In x (pc_cs (p_get c d)) -> p_is_addw x = true -> sock = true)
+  assert (K3 : forall x, In x (pc_cs (p_get c d)) -> p_act_target x = d -> p_is_addw x = true -> sock = true)
     by (intros; apply (G3 x); auto; apply in_or_app; right; apply in_or_app; auto).
   unfold l_invoke. destruct k.
-  - apply p_rm_acts_self; auto. split; [|exact M]. destruct R.
+  - apply p_rm_acts_mixed; auto. split; [|exact M]. destruct R.
     constructor; simpl; rewrite ?p_upd_same, ?Nat.eqb_refl; auto; congruence.
-  - apply p_rm_acts_self; auto. split; [|exact M]. destruct R.
+  - apply p_rm_acts_mixed; auto. split; [|exact M]. destruct R.
     constructor; simpl; rewrite ?Nat.eqb_refl; auto; congruence.
-  - apply p_rm_acts_self; auto. split; [|exact M]. destruct R.
+  - apply p_rm_acts_mixed; auto. split; [|exact M]. destruct R.
     constructor; simpl; rewrite ?Nat.eqb_refl; auto; congruence.
 Qed.
 
@@ -348,7 +403,7 @@ Proof.
   - assert (Nd : (x =? d) = false) by (apply Nat.eqb_neq; auto).
     assert (T : forall l, (forall y, In y l -> In y (pc_rs (p_get c x) ++ pc_ws (p_get c x) ++ pc_cs (p_get c x))) ->
                           forall y, In y l -> p_act_target y <> d).
-    { intros l H y Hy. rewrite (G1 x y (H y Hy)). exact N. }
+    { intros l H y Hy. apply (G1 x y N (H y Hy)). }
     destruct k.
     + apply p_re_exec_acts_other. apply T. intros; apply in_or_app; auto.
       destruct R; constructor; simpl; auto. rewrite p_upd_other; auto. rewrite Nd. exact re_log0.
@@ -390,8 +445,8 @@ Proof.
     intros a C0 R0 _ C1. rewrite (X l a OK (conj R0 C0)) in C1. discriminate.
 Qed.
 
-Hypothesis G4r : p_script_ok (pc_rs (p_get c d)) = true.
-Hypothesis G4c : p_script_ok (pc_cs (p_get c d)) = true.
+Hypothesis G4r : p_script_ok (l_own d (pc_rs (p_get c d))) = true.
+Hypothesis G4c : p_script_ok (l_own d (pc_cs (p_get c d))) = true.
 
 Lemma p_opix_rm_invoke s k : st_opix (p_invoke c s d k) = st_opix s.
 Proof. apply p_opix_invoke. Qed.
@@ -656,7 +711,7 @@ Proof.
   unfold p_invoke. destruct (st_del s x); auto.
   assert (T : forall l, (forall y, In y l -> In y (pc_rs (p_get c x) ++ pc_ws (p_get c x) ++ pc_cs (p_get c x))) ->
                         forall y, In y l -> p_act_target y <> d).
-  { intros l H y Hy. rewrite (G1 x y (H y Hy)). exact N. }
+  { intros l H y Hy. apply (G1 x y N (H y Hy)). }
   assert (Nd : (x =? d) = false) by (apply Nat.eqb_neq; auto).
   destruct k.
   - refine (proj2 (p_rei_exec_acts_other _ _ _ a m _)). apply T. intros; apply in_or_app; auto.
